@@ -17,10 +17,10 @@ Definition qeqb (a b : Qc) : bool := match (a ?= b)%Qc with Eq => true | _ => fa
 Definition qmin (a b : Qc) : Qc := if qle a b then a else b.
 Definition qmax (a b : Qc) : Qc := if qle a b then b else a.
 Definition ofZ (z : Z) : Qc := Q2Qc (inject_Z z).
-Definition two : Qc := (1 + 1)%Qc.
-Definition three : Qc := (1 + two)%Qc.
-Definition four : Qc := (two + two)%Qc.
-Definition six : Qc := (two * three)%Qc.
+Definition two : Qc := ofZ 2.
+Definition three : Qc := ofZ 3.
+Definition four : Qc := ofZ 4.
+Definition six : Qc := ofZ 6.
 Definition qsum (l : list Qc) : Qc := fold_right Qcplus 0%Qc l.
 
 Local Open Scope Qc_scope.
@@ -330,6 +330,18 @@ Fixpoint increasing (w : list Qc) : Prop :=
   match w with a :: ((b :: _) as t) => a < b /\ increasing t | _ => True end.
 Definition wf (s : spectrum) : Prop :=
   increasing (wave s) /\ Forall (fun x => 0 < x) (wave s) /\ length (wave s) = length (value s).
+(* what an operation must satisfy to be covered: appended spectra have one value per wavelength *)
+Definition op_ok (o : op) : Prop :=
+  match o with OAppend o' => length (wave o') = length (value o') | _ => True end.
+(* a resample refused because of its grid (the only call that can leave an ill-formed object) *)
+Definition bad_resample (s : spectrum) (o : op) : Prop :=
+  match o with OResample g => snd (exec s o) <> None | _ => False end.
+(* a call sequence without such a call *)
+Fixpoint no_bad_resample (s : spectrum) (ops : list op) : Prop :=
+  match ops with [] => True | o :: t => ~ bad_resample s o /\ no_bad_resample (fst (exec s o)) t end.
+(* the values a*v + b*u on a common grid *)
+Definition lincomb (a : Qc) (v : list Qc) (b : Qc) (u : list Qc) : list Qc :=
+  map (fun p => a * fst p + b * snd p) (combine v u).
 (* the value recorded for wavelength x, if x is a sample *)
 Fixpoint lookup (p : list (Qc * Qc)) (x : Qc) : option Qc :=
   match p with [] => None | (a, y) :: t => if qeqb x a then Some y else lookup t x end.
